@@ -43,7 +43,8 @@ impl ColorOptimizer {
                     match *map.get(&attr_ch.ch).unwrap() {
                         GlyphShape::Whitespace => {
                             attribute.set_foreground(cur_attr.get_foreground());
-                            if self.normalize_whitespace && map.contains_key(&' ') {
+                            // only a space that is blank in this font can stand in for another blank glyph
+                            if self.normalize_whitespace && matches!(map.get(&' '), Some(GlyphShape::Whitespace)) {
                                 ch = ' ';
                             }
                         }
